@@ -4,7 +4,7 @@ driver records validate(x) for corpus numbers, every single-character edit (all 
 insertions/deletions, random strings over the alphabet, ASCII hostile characters, and block digests of
 complete payload spaces (ISSN 10^7, IMO 10^6, EAN-8 10^7); TLC recomputes accept/reject and canonical form."""
 import json, os, random
-from vlib import lib, run, tlc
+from vlib import inputs, lib, run, tlc
 from props.c02 import first_meta
 
 PROP = 'C07'
@@ -53,7 +53,7 @@ def worker(unit, emit):
                 c = b
             for base in dict.fromkeys([b, c]):
                 for i in range(len(base)):
-                    for ch in (ALNUM if base is c else rnd.sample(ALNUM, 8)):
+                    for ch in (ALNUM if base == c else rnd.sample(ALNUM, 8)):
                         if ch != base[i]:
                             rec(base[:i] + ch + base[i + 1:], 'rep@%d' % i)
                     rec(base[:i] + base[i + 1:], 'del@%d' % i)
@@ -73,6 +73,18 @@ def worker(unit, emit):
                             rec(base[:i] + chr(zero + int(ch)) + base[i + 1:], 'foreign digit@%d' % i)
                     elif ch.isalpha() and ch.upper() in inputs_lookalike():
                         rec(base[:i] + inputs_lookalike()[ch.upper()] + base[i + 1:], 'foreign letter@%d' % i)
+                if base == c and len(c) >= 2:
+                    # symbols the module's own source mentions ('*', '@', '#' of CUSIP, ...) and a few alphanumerics at every
+                    # payload position, with EVERY final character: one of them is the right check character under the
+                    # standard, so the weight of each such symbol is compared, not only its admissibility
+                    symbols = [d for d in inputs.module_alphabet(mod) if not d.isalnum()][:6]
+                    finals = '0123456789' + ('ABCDEFGHIJKLMNOPQRSTUVWXYZ' if c[-1].isalpha() else '')
+                    for i in range(len(c) - 1):
+                        for d in symbols + rnd.sample(ALNUM, 2):
+                            if d == c[i]:
+                                continue
+                            for z in finals:
+                                rec(c[:i] + d + c[i + 1:-1] + z, 'rep@%d + final %s' % (i, z))
                 rec(base.lower(), 'lower')
                 rec(' ' + base + ' ', 'padded')
                 rec('\t' + base + '\n', 'padded2')
